@@ -157,3 +157,19 @@ func init() {
 	intrinsics["internal/abi.NoEscape"] = id
 	intrinsics["(*strings.Builder).copyCheck"] = func(e *Engine, fr *frame, a []Value) Value { return nil }
 }
+
+func init() {
+	intrinsics["encoding/hex.EncodeToString"] = func(e *Engine, fr *frame, a []Value) Value {
+		const hexd = "0123456789abcdef"
+		ts := sliceTerms(a[0])
+		out := make([]byte, 0, 2*len(ts))
+		for _, t := range ts {
+			if !t.IsConst() {
+				return "<hex of symbolic bytes>" // only ever used for messages
+			}
+			v := byte(t.C.Uint64())
+			out = append(out, hexd[v>>4], hexd[v&15])
+		}
+		return string(out)
+	}
+}
